@@ -385,6 +385,12 @@ def run(pid, tier_, replay=None):
         # the dictionary state machine: Dictionary.tla exhaustively, and DictObs.tla on every dictionary column of every recorded stream
         dct = dict(zip(("states", "generated", "runs", "issues"), otap.dictionary_mc(quick)))
         dct["obs"] = otap.run_dictobs(outs, plan, timeout=1500 if quick else 7000)
+    strm = None
+    if pid in ("C07", "C12"):
+        # the payload-level protocol: Stream.tla exhaustively (with its specification mutants), and StreamTrace.tla on every recorded
+        # Produce / Consume step (stream maps read through the verif-tagged projection)
+        strm = otap.stream_mc(quick)
+        strm["trace"] = otap.stream_conformance(outs, timeout=1500 if quick else 7000)
     stats = otap.summarize(outs)
     found = []
     for tr, prop, clause, seq in viol:
@@ -458,6 +464,18 @@ def run(pid, tier_, replay=None):
         cov["traces_validated_against_impl"] = cov["traces_validated_against_impl"] + alloc["runs"] - len(alloc["drift"])
         if alloc["drift"]:
             print("DRIFT (not a verdict): the real LimitedAllocator differs from Allocator.tla on %d sequences, e.g. %s" % (len(alloc["drift"]), json.dumps(alloc["drift"][0])))
+    if strm:
+        if strm["problem"]:
+            model_issues.append("Stream.tla: " + strm["problem"])
+        tr_ = strm["trace"]
+        cov.update(states=strm["distinct"], transitions=strm["generated"],
+                   stream=dict(spec="Stream.tla / MC_Stream.tla / StreamTrace.tla", configs=strm["configs"], spec_mutants_first_violation=strm["mutants"],
+                               streams_recorded=tr_["streams"], steps_recorded=tr_["events"], streams_accepted=tr_["accepted"],
+                               conformance_drift=len(tr_["drift"]), drift_samples=tr_["drift"][:3]))
+        cov["traces_validated_against_impl"] = tr_["accepted"]
+        for d_ in tr_["drift"][:4]:
+            print("DRIFT (not a verdict): Stream.tla does not explain step %s of stream %s: %s" % (
+                d_["line"], d_["stream"], json.dumps(d_["event"])[:600]))
     for mi in model_issues:
         print("MODEL-ISSUE (not a verdict): %s" % mi)
     assumptions = ["the generic dump of harness/otap/dump.go lists every data-model field of docs/data_model.md",
